@@ -9,7 +9,7 @@ T={}  # id -> (level, technique, level text, level note)
 def P(id,tech,text,note,level='other'):
     T[id]=(level,tech,text,note)
 
-SUFFIX=" Sites are found by role inside regions (entry function + the same-package helpers it calls), not by the names of unexported functions; the complete rule list of the current build, including the rules added after the rounds of independently written breaking changes and refactorings, is the 'explanation' / 'rules' of the evidence file and DESIGN.md 11.6-11.12."
+SUFFIX=" Sites are found by role inside regions (entry function + the same-package helpers it calls), not by the names of unexported functions; the complete rule list of the current build, including the rules added after the rounds of independently written breaking changes and refactorings, is the 'explanation' / 'rules' of the evidence file and DESIGN.md 11.6-11.13."
 COMMON_NOTE="Trusted: Go type checker, x/tools go/ssa, the documented contracts of the standard library at the call boundaries named in the rule tables. The check decides structural necessary conditions on every path/call site of /repo's current source; it does not execute fabio."
 
 P('C19','value-flow (wiring) rules on SSA + dominance',
@@ -100,7 +100,7 @@ for p in props:
           "evidence_file":f"evidence/{id}.json",
           "replay_cmd_template":"./run.sh explain {path}",
           "engine":"verifcheck",
-          "level_claimed":{"category":level,"text":text+SUFFIX,"design_ref":f"DESIGN.md §5 {id}; §11.6-11.12"},
+          "level_claimed":{"category":level,"text":text+SUFFIX,"design_ref":f"DESIGN.md §5 {id}; §11.6-11.13"},
           "level_note":note,
           "technique":"static analysis: "+tech,
         })
